@@ -161,10 +161,25 @@ structure GoodTyp (t : Str) : Prop where
   chars : ∀ c ∈ t, c ≠ ':' ∧ c ≠ '`' ∧ isLineBreak c = false
   noOptSuffix : endsWith t ", optional".toList = false
 
-/-- **defaults** the theorems cover: integers and booleans -/
+/-- `<digits>.<digits>` -/
+def DecimalText (r : Str) : Prop :=
+  ∃ c a f, r = c :: a ++ '.' :: f ∧ c.isDigit = true ∧ (∀ x ∈ a, x.isDigit = true) ∧ (∀ x ∈ f, x.isDigit = true) ∧ f ≠ []
+
+theorem decimal_chars (r : Str) (h : DecimalText r) : ∀ x ∈ r, x = '.' ∨ x.isDigit = true := by
+  obtain ⟨c, a, f, rfl, hc, ha, hf, _⟩ := h
+  intro x hx
+  simp only [List.cons_append, List.mem_cons, List.mem_append] at hx
+  rcases hx with rfl | hx | rfl | hx
+  · exact Or.inr hc
+  · exact Or.inr (ha x hx)
+  · exact Or.inl rfl
+  · exact Or.inr (hf x hx)
+
+/-- **defaults** the theorems cover: integers, booleans and non-negative decimals `<digits>.<digits>` -/
 def GoodDefault : Default → Prop
   | .int _ => True
   | .bool _ => True
+  | .float r => DecimalText r
   | _ => False
 
 /-- the declared type does not make the parser coerce the default (`bool("5")`, `float("5")` …) -/
@@ -259,7 +274,13 @@ theorem renderVal_chars (v : Default) (h : GoodDefault v) :
       intro c hc
       simp only [renderVal, sTrue, if_true, List.mem_cons, List.not_mem_nil, or_false] at hc
       rcases hc with rfl | rfl | rfl | rfl <;> decide
-  | float _ => exact absurd h (by simp [GoodDefault])
+  | float r =>
+    have hch := decimal_chars r h
+    refine ⟨by obtain ⟨c, a, f, rfl, _⟩ := h; simp [renderVal], ?_⟩
+    intro c hc
+    rcases hch c hc with rfl | hd
+    · decide
+    · exact digit_plain c hd
   | str _ => exact absurd h (by simp [GoodDefault])
   | none => exact absurd h (by simp [GoodDefault])
   | code _ => exact absurd h (by simp [GoodDefault])
